@@ -35,7 +35,7 @@ ASSUMPTIONS = ["pre-state transaction ids are the concrete distinct values 0x100
                "allocation does not fail"]
 DESIGN_REF = "DESIGN.md §5 C34, §3.2, §3.9"
 
-US = ["transaction_id_pick.2:4", "nameserver_pick.3:4", "vpe_strlen.0:26", "vpe_strncmp.0:26", "vpd_calloc.0:15",
+US = ["vpe_timeout_set.0:10", "vpe_timeout_of.0:10", "transaction_id_pick.2:4", "nameserver_pick.3:4", "vpe_strlen.0:26", "vpe_strncmp.0:26", "vpd_calloc.0:15",
       "evdns_base_set_max_requests_inflight.4:15", "vpd_memcpy.0:130", "vpd_memcpy_var.0:30", "vpd_memset.0:130", "vpe_memcpy.0:30", "vpd_check_write.0:10"]
 
 def ob(name, entry, desc, nns=1, nreq=2, maxinf=2, attempts=1, tcp=False, extra=(), **kw):
@@ -70,7 +70,7 @@ def obligations(tier):
                       "request is promoted (fresh id, timer); tables consistent; clean free" % (j, ", twice" if twice else "", ", then on the other one" if both else ""),
                       nns=nns, nreq=2, maxinf=maxinf, extra=["C34_J=%d" % j, "C34_TWICE=%d" % twice, "C34_BOTH=%d" % both]))
     # ---- timeouts (UDP)
-    ts = [(1, 0, 1, 2, 2), (2, 1, 1, 2, 2), (2, 0, 0, 1, 1), (1, 0, 0, 2, 1)]
+    ts = [(1, 0, 1, 2, 2), (2, 1, 1, 2, 2), (2, 0, 0, 1, 1), (1, 0, 1, 2, 1)]
     if full: ts += [(2, 0, 1, 2, 2), (2, 1, 0, 1, 2), (1, 1, 0, 1, 1), (2, 0, 0, 2, 1)]
     for (att, j, j2, nns, maxinf) in ts:
         obs.append(ob("timeout_att%d_j%d%d_ns%d_inf%d" % (att, j, j2, nns, maxinf), "harness_timeout",
